@@ -198,8 +198,8 @@ def special_trace(ctx):
 
 # ------------------------------------------------------------------ property table
 
-def P(level, families=(), ops=None, special=(), rule="", explanation="", trusted=(), assumptions=()):
-    return {"level": level, "families": list(families), "ops": ops, "special": list(special), "rule": rule,
+def P(level, families=(), ops=None, special=(), rule="", explanation="", trusted=(), assumptions=(), model_ignore=()):
+    return {"model_ignore": list(model_ignore), "level": level, "families": list(families), "ops": ops, "special": list(special), "rule": rule,
             "explanation": explanation, "trusted_base": TB_COMMON + list(trusted), "assumptions": list(assumptions)}
 
 
@@ -208,8 +208,8 @@ RULE = ("operation lines generated from VERIF_SEED by the harness (mostly-valid 
         "distinct = distinct operation lines")
 
 PROPS = {
-    "C01": P("proof", [("mul", 24, 6000)], ["PT.mul"], rule=RULE),
-    "C02": P("proof", [("grouplaw", 1500, 200000)], ["PT.add", "PT.addnil", "PT.addself", "PT.dbl", "PT.neg", "PT.sub", "PT.subnil", "PT.subself"], rule=RULE),
+    "C01": P("proof", [("mul", 24, 6000)], ["PT.mul"], rule=RULE, model_ignore=["c"]),
+    "C02": P("proof", [("grouplaw", 1500, 200000)], ["PT.add", "PT.addnil", "PT.addself", "PT.dbl", "PT.neg", "PT.sub", "PT.subnil", "PT.subself"], rule=RULE, model_ignore=["c"]),
     "C03": P("proof", [("decode", 1200, 150000)], ["DEC.*"], rule=RULE),
     "C04": P("proof", [("enc", 600, 80000), ("roundtrip", 300, 40000)], ["PT.enc", "G.base", "G.consts", "G.order", "DEC.*"], rule=RULE),
     "C05": P("proof", [("eq", 1500, 200000)], ["PT.eq", "PT.eqself", "PT.isid"], rule=RULE),
@@ -218,14 +218,14 @@ PROPS = {
     "C07": P("proof", [("scenc", 2000, 240000), ("sfenc", 1000, 160000)], ["SC.*", "S.*"], rule=RULE,
              trusted=["encoding/hex, encoding/binary (modelled)"]),
     "C08": P("proof", [("h2c", 60, 10000), ("expand", 300, 60000), ("chosenu", 80, 12000), ("fh2f", 500, 80000)],
-             ["H2C.h2g", "H2C.e2g", "H2C.h2gu", "H2C.e2gu", "XMD.*", "F.h2f"], rule=RULE,
+             ["H2C.h2g", "H2C.e2g", "H2C.h2gu", "H2C.e2gu", "XMD.*", "F.h2f"], rule=RULE, model_ignore=["c"],
              trusted=["crypto/sha256 (a parameter H in the theorems; the Lean SHA-256 used by the driver is itself compared with crypto/sha256 by XMD.sha)"]),
     "C09": P("proof", [("h2s", 100, 20000), ("sfh2f", 1500, 240000), ("expand", 200, 60000), ("chosenu", 40, 12000)],
              ["H2C.h2s", "H2C.h2su", "S.h2f", "XMD.*"], rule=RULE,
              trusted=["crypto/sha256 (parameter H)"]),
     "C10": P("proof", [("history", 12, 1500), ("historylong", 0, 40)], ["H.*"], rule=RULE +
              "; a history is a sequence of 40 (long: 400) API calls over pools of 4 elements and 4 scalars with 40% aliased choices, every pool variable observed after every step"),
-    "C11": P("proof", [("map", 250, 40000), ("chosenu", 40, 12000)], ["PT.sswu", "PT.map", "PT.iso", "H2C.e2gu"], rule=RULE),
+    "C11": P("proof", [("map", 250, 40000), ("chosenu", 40, 12000)], ["PT.sswu", "PT.map", "PT.iso", "H2C.e2gu"], rule=RULE, model_ignore=["c"]),
     "C12": P("proof", [("field", 4000, 1000000)], ["F.*"], rule=RULE),
     "C13": P("proof", [("cmp", 3000, 600000), ("sfcmp", 1000, 200000)], ["SC.*", "S.*"], rule=RULE),
     "C14": P("proof", [("bits", 1500, 300000)], ["SC.bits"], rule=RULE),
